@@ -106,6 +106,15 @@ func (g *Graph) AddEdge(v1, v2 Vertex) {
 func (g *Graph) AddEdgeWeighted(v1, v2 Vertex, weight int) {
 	g.init()
 	h1, h2 := hashcode(v1), hashcode(v2)
+
+	// Both vertices must be in the graph, otherwise this does nothing.
+	if _, ok := g.hash[h1]; !ok {
+		return
+	}
+	if _, ok := g.hash[h2]; !ok {
+		return
+	}
+
 	g.adjacencyOut[h1][h2] = weight
 	g.adjacencyIn[h2][h1] = weight
 }
